@@ -218,7 +218,9 @@ type Watermark struct{ Src, Tgt, Slot int64 }
 // NoWatermark is the record of a key that never signed.
 var NoWatermark = Watermark{-1, -1, -1}
 
-func (w Watermark) String() string { return fmt.Sprintf("(src=%d,tgt=%d,slot=%d)", w.Src, w.Tgt, w.Slot) }
+func (w Watermark) String() string {
+	return fmt.Sprintf("(src=%d,tgt=%d,slot=%d)", w.Src, w.Tgt, w.Slot)
+}
 
 // ExportString renders an export canonically.
 func ExportString(m map[string]Watermark) string {
